@@ -9,7 +9,7 @@ folds of `narrow` are invariant under permutation; (C) a fix only changes constr
 preserves the invariant `wfB`; (D) the atomic case; (E) the main induction over the reference depth.
 -/
 namespace Pepper.FixSpec
-open Pepper.Comp Pepper.Fix Pepper.CodeTable
+open Pepper.Comp Pepper.Fix Pepper.CodeTable Pepper.Sys
 
 theorem complC_eq (t : CodeTable) (c : Char) : complC t c = t.complD c := rfl
 
@@ -1029,5 +1029,607 @@ theorem fixItem_spec {t : CodeTable} (hl : t.lawful = true) : ∀ (fuel : Nat) (
         have h2 : (e.len != str.length) = true := by simp [Ne.symm hlen]
         rw [h1, h2]
         rfl
+
+/-! ### top-level fuel, strands, structures -/
+
+theorem idxOf_lt {st : St} {n : String} {e : SeqE} (he : st.findSeq n = some e) : idxOf st n < st.seqs.length := by
+  unfold idxOf
+  apply List.findIdx_lt_length_of_exists
+  exact ⟨e, findSeq_mem he, by simp [findSeq_name he]⟩
+
+/-- `x.fix_seq(str)` with the fuel the compile driver supplies -/
+theorem fixItem_top {t : CodeTable} (hl : t.lawful = true) {st : St} (hw : wfB t st = true) {n : String} {e : SeqE}
+    (he : st.findSeq n = some e) (fuel : Nat) (hfuel : st.seqs.length < fuel) (rev : Bool) (str : List Char)
+    (hcodes : ∀ c ∈ str, t.isCode c = true) :
+    fixItem t fuel st n rev str = specFix t st (posOfView st n rev) str := by
+  apply fixItem_spec hl fuel st n rev str e hw he _ hcodes
+  have := idxOf_lt he
+  split <;> omega
+
+theorem strandOK_spec {st : St} {s : StrandE} (h : strandOK st s = true) :
+    (∀ i ∈ s.items, itemOK st st.seqs.length i = true) ∧ s.bases = s.items.flatMap (basesOfItem st) ∧
+      s.len = (s.items.map (·.len)).sum ∧ (s.bases.map (·.len)).sum = s.len := by
+  unfold strandOK at h
+  simp only [Bool.and_eq_true, decide_eq_true_eq, List.all_eq_true, beq_iff_eq] at h
+  exact ⟨h.1.1.1, h.1.1.2, h.1.2, h.2⟩
+
+theorem posOfBases_strand {st : St} {s : StrandE} (h : strandOK st s = true) :
+    posOfBases s.bases = s.items.flatMap (posOfItem st) := by
+  rw [(strandOK_spec h).2.1, posOfBases_flatMap]
+  congr 1
+  funext i
+  exact posOfBases_basesOfItem st i
+
+/-- `Strand.fix_seq` -/
+theorem fixStrand_spec {t : CodeTable} (hl : t.lawful = true) {st : St} (hw : wfB t st = true) {s : StrandE}
+    (hs : s ∈ st.strands) (str : List Char) (hcodes : ∀ c ∈ str, t.isCode c = true) :
+    fixStrand t st s str = specFix t st (posOfBases s.bases) str := by
+  have hok := wfB_strandOK hw hs
+  obtain ⟨hitems, _, hsum, hbl⟩ := strandOK_spec hok
+  unfold fixStrand fixItems specFix
+  rw [posOfBases_length, hbl]
+  by_cases hlen : str.length = s.len
+  · have h1 : (str.length != s.len) = false := by simp [hlen]
+    have h2 : (s.len != str.length) = false := by simp [hlen]
+    rw [h1, h2]
+    simp only [Bool.false_eq_true, if_false]
+    rw [fixList_spec hl (st.seqs.length + 1) (fun st' n rev str' e hw' he hr hc => fixItem_spec hl _ st' n rev str' e hw' he hr hc)
+      s.items st str st.seqs.length hw (by omega) hitems (by rw [hlen, hsum]) hcodes, posOfBases_strand hok]
+    rfl
+  · have h1 : (str.length != s.len) = true := by simp [hlen]
+    have h2 : (s.len != str.length) = true := by simp [Ne.symm hlen]
+    rw [h1, h2]
+    rfl
+
+theorem findStrand_mem {st : St} {n : String} {s : StrandE} (h : st.findStrand n = some s) : s ∈ st.strands :=
+  List.mem_of_find?_eq_some h
+
+/-- the loop of `Structure.fix_seq` -/
+def strandStep (t : CodeTable) (acc : St) (np : String × List Char) : Except Fix.Err St :=
+  match acc.findStrand np.1 with
+  | some se => fixStrand t acc se np.2
+  | none => .error .key
+
+theorem fixStruct_unfold (t : CodeTable) (st : St) (x : StructE) (str : List Char) :
+    fixStruct t st x str =
+      if (Notation.splitOn '+' str).length != x.strands.length then .error .strandCount
+      else (List.zip x.strands (Notation.splitOn '+' str)).foldlM (strandStep t) st := rfl
+
+theorem foldlM_cons_except {ε σ α} (f : σ → α → Except ε σ) (s : σ) (a : α) (r : List α) :
+    (a :: r).foldlM f s = match f s a with | .ok s' => r.foldlM f s' | .error e => .error e := by
+  rw [List.foldlM_cons]
+  cases f s a <;> rfl
+
+theorem strands_fold_ok {t : CodeTable} (hl : t.lawful = true) :
+    ∀ (l : List (String × List Char)) (st : St), wfB t st = true →
+      (∀ np ∈ l, ∃ s, st.findStrand np.1 = some s ∧ s.len = np.2.length ∧ ∀ c ∈ np.2, t.isCode c = true) →
+      l.foldlM (strandStep t) st =
+        match specFold t st ((l.flatMap (fun np => posOfStrandName st np.1)).zip (l.flatMap (·.2))) with
+        | some s => .ok s
+        | none => .error .empty := by
+  intro l
+  induction l with
+  | nil => intro st _ _; simp [specFold]; rfl
+  | cons np r ih =>
+    intro st hw hall
+    obtain ⟨s, hs, hlen, hc⟩ := hall np List.mem_cons_self
+    rw [foldlM_cons_except]
+    have hstep : strandStep t st np = specFix t st (posOfBases s.bases) np.2 := by
+      unfold strandStep; rw [hs]; exact fixStrand_spec hl hw (findStrand_mem hs) np.2 hc
+    have hpl : (posOfBases s.bases).length = np.2.length := by
+      rw [posOfBases_length, (strandOK_spec (wfB_strandOK hw (findStrand_mem hs))).2.2.2, hlen]
+    have hpn : posOfStrandName st np.1 = posOfBases s.bases := by unfold posOfStrandName; rw [hs]
+    rw [hstep, List.flatMap_cons, List.flatMap_cons, hpn, List.zip_append hpl, specFold_append]
+    unfold specFix
+    have hne : ((posOfBases s.bases).length != np.2.length) = false := by simp [hpl]
+    rw [hne]
+    simp only [Bool.false_eq_true, if_false]
+    cases h1 : specFold t st ((posOfBases s.bases).zip np.2) with
+    | none => rfl
+    | some s' =>
+      simp only [Option.bind_some]
+      have hsk := specFold_skel h1
+      have hst : ∀ n, s'.findStrand n = st.findStrand n := by
+        intro n; unfold St.findStrand; rw [strands_congr hsk]
+      rw [ih s' (specFold_wf hl hw h1) (fun q hq => by
+        obtain ⟨s2, h2, h3⟩ := hall q (List.mem_cons_of_mem _ hq)
+        exact ⟨s2, by rw [hst]; exact h2, h3⟩)]
+      have : (fun np : String × List Char => posOfStrandName s' np.1) = fun np => posOfStrandName st np.1 := by
+        funext q; unfold posOfStrandName; rw [hst]
+      rw [this]
+
+theorem strands_fold_bad {t : CodeTable} (hl : t.lawful = true) :
+    ∀ (l : List (String × List Char)) (st : St), wfB t st = true →
+      (∀ np ∈ l, ∃ s, st.findStrand np.1 = some s ∧ ∀ c ∈ np.2, t.isCode c = true) →
+      (∃ np ∈ l, ∀ s, st.findStrand np.1 = some s → s.len ≠ np.2.length) →
+      ∃ err, l.foldlM (strandStep t) st = .error err := by
+  intro l
+  induction l with
+  | nil => intro st _ _ h; obtain ⟨_, h, _⟩ := h; cases h
+  | cons np r ih =>
+    intro st hw hall hbad
+    obtain ⟨s, hs, hc⟩ := hall np List.mem_cons_self
+    rw [foldlM_cons_except]
+    have hstep : strandStep t st np = specFix t st (posOfBases s.bases) np.2 := by
+      unfold strandStep; rw [hs]; exact fixStrand_spec hl hw (findStrand_mem hs) np.2 hc
+    rw [hstep]
+    cases h1 : specFix t st (posOfBases s.bases) np.2 with
+    | error e => exact ⟨e, rfl⟩
+    | ok s' =>
+      simp only
+      unfold specFix at h1
+      split at h1
+      · cases h1
+      · rename_i hlen
+        have hlen' : (posOfBases s.bases).length = np.2.length := by simpa using hlen
+        cases h2 : specFold t st ((posOfBases s.bases).zip np.2) with
+        | none => rw [h2] at h1; cases h1
+        | some s2 =>
+          rw [h2] at h1
+          simp only [Except.ok.injEq] at h1
+          subst h1
+          have hsk := specFold_skel h2
+          have hst : ∀ n, s2.findStrand n = st.findStrand n := by
+            intro n; unfold St.findStrand; rw [strands_congr hsk]
+          apply ih s2 (specFold_wf hl hw h2)
+          · intro q hq
+            obtain ⟨s3, h3, h4⟩ := hall q (List.mem_cons_of_mem _ hq)
+            exact ⟨s3, by rw [hst]; exact h3, h4⟩
+          · obtain ⟨q, hq, hq2⟩ := hbad
+            rcases List.mem_cons.1 hq with rfl | hq'
+            · exfalso
+              apply hq2 s hs
+              rw [← hlen', posOfBases_length, (strandOK_spec (wfB_strandOK hw (findStrand_mem hs))).2.2.2]
+            · exact ⟨q, hq', fun s3 h3 => hq2 s3 (by rw [← hst]; exact h3)⟩
+
+theorem splitOn_spec (c : Char) (s : List Char) :
+    Notation.splitOn c s ≠ [] ∧ ∀ p ∈ Notation.splitOn c s, ∀ x ∈ p, x ∈ s ∧ x ≠ c := by
+  induction s with
+  | nil => simp [Notation.splitOn]
+  | cons d r ih =>
+    unfold Notation.splitOn
+    cases h : Notation.splitOn c r with
+    | nil => exact absurd h ih.1
+    | cons hd tl =>
+      simp only
+      rw [h] at ih
+      by_cases hdc : d = c
+      · simp only [hdc, beq_self_eq_true, if_true]
+        refine ⟨by simp, ?_⟩
+        intro p hp x hx
+        rcases List.mem_cons.1 hp with rfl | hp
+        · cases hx
+        · have := ih.2 p hp x hx
+          exact ⟨List.mem_cons_of_mem _ this.1, this.2⟩
+      · have : (d == c) = false := by simpa using hdc
+        simp only [this, Bool.false_eq_true, if_false]
+        refine ⟨by simp, ?_⟩
+        intro p hp x hx
+        rcases List.mem_cons.1 hp with rfl | hp
+        · rcases List.mem_cons.1 hx with rfl | hx
+          · exact ⟨List.mem_cons_self, hdc⟩
+          · have := ih.2 hd List.mem_cons_self x hx
+            exact ⟨List.mem_cons_of_mem _ this.1, this.2⟩
+        · have := ih.2 p (List.mem_cons_of_mem _ hp) x hx
+          exact ⟨List.mem_cons_of_mem _ this.1, this.2⟩
+
+
+theorem flatMap_snd_zip {α β} (a : List α) (b : List (List β)) (h : b.length ≤ a.length) :
+    (a.zip b).flatMap (·.2) = b.flatten := by
+  induction a generalizing b with
+  | nil => cases b <;> simp_all
+  | cons x r ih =>
+    cases b with
+    | nil => simp
+    | cons y s =>
+      simp only [List.length_cons, Nat.add_le_add_iff_right] at h
+      simp [List.flatMap_cons, ih s h]
+
+theorem structOK_spec {st : St} {x : StructE} (h : structOK st x = true) :
+    ∀ n ∈ x.strands, ∃ s, st.findStrand n = some s := by
+  unfold structOK at h
+  simp only [List.all_eq_true] at h
+  intro n hn
+  exact Option.isSome_iff_exists.1 (h n hn)
+
+/-- `Structure.fix_seq`: wrong number of parts -/
+theorem fixStruct_count (t : CodeTable) (st : St) (x : StructE) (str : List Char)
+    (h : (Notation.splitOn '+' str).length ≠ x.strands.length) :
+    fixStruct t st x str = .error .strandCount ∧ specFixStruct t st x str = .error .strandCount := by
+  have : ((Notation.splitOn '+' str).length != x.strands.length) = true := by simpa using h
+  constructor
+  · rw [fixStruct_unfold, this]; rfl
+  · unfold specFixStruct; simp only [this, if_true]
+
+theorem struct_hall {t : CodeTable} {st : St} (hw : wfB t st = true) {x : StructE} (hx : x ∈ st.structs)
+    {str : List Char} (hcodes : ∀ c ∈ str, c = '+' ∨ t.isCode c = true) :
+    ∀ np ∈ x.strands.zip (Notation.splitOn '+' str),
+      ∃ s, st.findStrand np.1 = some s ∧ ∀ c ∈ np.2, t.isCode c = true := by
+  intro np hnp
+  obtain ⟨h1, h2⟩ := List.of_mem_zip hnp
+  obtain ⟨s, hs⟩ := structOK_spec (wfB_structOK hw hx) np.1 h1
+  refine ⟨s, hs, fun c hc => ?_⟩
+  obtain ⟨hm, hne⟩ := (splitOn_spec '+' str).2 np.2 h2 c hc
+  rcases hcodes c hm with h | h
+  · exact absurd h hne
+  · exact h
+
+theorem posOfStrandName_length {t : CodeTable} {st : St} (hw : wfB t st = true) {n : String} {s : StrandE}
+    (hs : st.findStrand n = some s) : (posOfStrandName st n).length = s.len := by
+  unfold posOfStrandName
+  rw [hs, posOfBases_length, (strandOK_spec (wfB_strandOK hw (findStrand_mem hs))).2.2.2]
+
+/-- `Structure.fix_seq`: right number of parts, every part of its strand's length -/
+theorem fixStruct_exact {t : CodeTable} (hl : t.lawful = true) {st : St} (hw : wfB t st = true) {x : StructE}
+    (hx : x ∈ st.structs) (str : List Char) (hcodes : ∀ c ∈ str, c = '+' ∨ t.isCode c = true)
+    (hcount : (Notation.splitOn '+' str).length = x.strands.length)
+    (hlens : ∀ np ∈ x.strands.zip (Notation.splitOn '+' str), (posOfStrandName st np.1).length = np.2.length) :
+    fixStruct t st x str = specFixStruct t st x str := by
+  have hc : ((Notation.splitOn '+' str).length != x.strands.length) = false := by simp [hcount]
+  have hall := struct_hall hw hx hcodes
+  rw [fixStruct_unfold, hc]
+  unfold specFixStruct
+  simp only [hc, Bool.false_eq_true, if_false]
+  have hallB : (x.strands.zip (Notation.splitOn '+' str)).all
+      (fun np => (posOfStrandName st np.1).length == np.2.length) = true := by
+    rw [List.all_eq_true]; intro np hnp; simpa using hlens np hnp
+  rw [hallB]
+  simp only [Bool.not_true, Bool.false_eq_true, if_false]
+  rw [strands_fold_ok hl _ st hw (fun np hnp => by
+    obtain ⟨s, hs, hcs⟩ := hall np hnp
+    exact ⟨s, hs, by rw [← posOfStrandName_length hw hs]; exact hlens np hnp, hcs⟩)]
+  rw [flatMap_snd_zip _ _ (by omega)]
+  unfold specFix
+  have hlen : ((x.strands.zip (Notation.splitOn '+' str)).flatMap (fun np => posOfStrandName st np.1)).length
+      = (Notation.splitOn '+' str).flatten.length := by
+    rw [← flatMap_snd_zip x.strands _ (by omega)]
+    generalize x.strands.zip (Notation.splitOn '+' str) = l at hlens
+    induction l with
+    | nil => rfl
+    | cons a r ih =>
+      simp only [List.flatMap_cons, List.length_append]
+      rw [hlens a List.mem_cons_self, ih (fun np h => hlens np (List.mem_cons_of_mem _ h))]
+  have : (((x.strands.zip (Notation.splitOn '+' str)).flatMap (fun np => posOfStrandName st np.1)).length
+      != (Notation.splitOn '+' str).flatten.length) = false := by simp [hlen]
+  rw [this]
+  rfl
+
+/-- `Structure.fix_seq`: some part has the wrong length -/
+theorem fixStruct_length {t : CodeTable} (hl : t.lawful = true) {st : St} (hw : wfB t st = true) {x : StructE}
+    (hx : x ∈ st.structs) (str : List Char) (hcodes : ∀ c ∈ str, c = '+' ∨ t.isCode c = true)
+    (hcount : (Notation.splitOn '+' str).length = x.strands.length)
+    (hbad : ∃ np ∈ x.strands.zip (Notation.splitOn '+' str), (posOfStrandName st np.1).length ≠ np.2.length) :
+    (∃ err, fixStruct t st x str = .error err) ∧ specFixStruct t st x str = .error .length := by
+  have hc : ((Notation.splitOn '+' str).length != x.strands.length) = false := by simp [hcount]
+  have hall := struct_hall hw hx hcodes
+  constructor
+  · rw [fixStruct_unfold, hc]
+    simp only [Bool.false_eq_true, if_false]
+    apply strands_fold_bad hl _ st hw hall
+    obtain ⟨np, hnp, hne⟩ := hbad
+    refine ⟨np, hnp, fun s hs h => hne ?_⟩
+    rw [posOfStrandName_length hw hs, h]
+  · unfold specFixStruct
+    simp only [hc, Bool.false_eq_true, if_false]
+    have : (x.strands.zip (Notation.splitOn '+' str)).all
+        (fun np => (posOfStrandName st np.1).length == np.2.length) = false := by
+      rw [List.all_eq_false]
+      obtain ⟨np, hnp, hne⟩ := hbad
+      exact ⟨np, hnp, by simpa using hne⟩
+    rw [this]
+    rfl
+
+/-! ### frame and narrowing -/
+
+/-- the code at index `i` of base sequence `n` -/
+def charAt (st : St) (n : String) (i : Nat) : Option Char := (st.findSeq n).bind (·.const[i]?)
+
+/-- its base set as a mask (`0` when there is no such position) -/
+def maskAt (t : CodeTable) (st : St) (n : String) (i : Nat) : Nat :=
+  match charAt st n i with
+  | some c => t.maskC c
+  | none => 0
+
+theorem narrow_charAt {t : CodeTable} {st st' : St} {p : Pos} {c : Char} (h : narrow t st p c = some st')
+    (n : String) (i : Nat) :
+    charAt st' n i =
+      if n = p.1 ∧ i = p.2.1 then (charAt st n i).bind (interO t · (codeFor t p c)) else charAt st n i := by
+  unfold narrow at h
+  obtain ⟨e, he, h⟩ := Option.bind_eq_some_iff.1 h
+  obtain ⟨c', hc', h⟩ := Option.map_eq_some_iff.1 h
+  subst h
+  unfold narrowC at hc'
+  obtain ⟨x, hx, hc'⟩ := Option.bind_eq_some_iff.1 hc'
+  obtain ⟨y, hy, hc'⟩ := Option.map_eq_some_iff.1 hc'
+  subst hc'
+  unfold charAt
+  rw [findSeq_setConst]
+  by_cases hn : n = p.1
+  · subst hn
+    rw [he]
+    simp only [Option.map_some, Option.bind_some, true_and]
+    have : upd p.1 (e.const.set p.2.1 y) e = { e with const := e.const.set p.2.1 y } := by
+      unfold upd; simp [findSeq_name he]
+    rw [this]
+    simp only
+    by_cases hi : i = p.2.1
+    · subst hi
+      have hlt : p.2.1 < e.const.length := by
+        rcases Nat.lt_or_ge p.2.1 e.const.length with h | h
+        · exact h
+        · rw [List.getElem?_eq_none h] at hx; cases hx
+      simp [List.getElem?_set_self hlt, hx, hy]
+    · simp [hi, List.getElem?_set_ne (Ne.symm hi)]
+  · simp only [hn, false_and, if_false]
+    cases h1 : st.findSeq n with
+    | none => rfl
+    | some e1 =>
+      have : upd p.1 (e.const.set p.2.1 y) e1 = e1 := by
+        unfold upd
+        have : (e1.name == p.1) = false := by rw [findSeq_name h1]; exact beq_false_of_ne hn
+        simp [this]
+      simp [this]
+
+/-- a fold of `narrow` leaves every position it does not mention alone -/
+theorem specFold_frame {t : CodeTable} {st st' : St} {l : List (Pos × Char)} (h : specFold t st l = some st')
+    (n : String) (i : Nat) (hni : ∀ pc ∈ l, ¬ (pc.1.1 = n ∧ pc.1.2.1 = i)) : charAt st' n i = charAt st n i := by
+  induction l generalizing st with
+  | nil => simp [specFold] at h; rw [h]
+  | cons a r ih =>
+    obtain ⟨p, c⟩ := a
+    rw [specFold_cons] at h
+    obtain ⟨s1, h1, h2⟩ := Option.bind_eq_some_iff.1 h
+    rw [ih h2 (fun pc hpc => hni pc (List.mem_cons_of_mem _ hpc)), narrow_charAt h1]
+    have := hni (p, c) List.mem_cons_self
+    have : ¬ (n = p.1 ∧ i = p.2.1) := fun ⟨a, b⟩ => this ⟨a.symm, b.symm⟩
+    simp [this]
+
+/-- the masks of the letters that land on position `(n, i)`, complemented where the position is flagged -/
+def hits (t : CodeTable) (l : List (Pos × Char)) (n : String) (i : Nat) : List Nat :=
+  l.filterMap fun pc =>
+    if pc.1.1 = n ∧ pc.1.2.1 = i then some (if pc.1.2.2 then complMask (t.maskC pc.2) else t.maskC pc.2) else none
+
+theorem maskC_codeFor {t : CodeTable} (hl : t.lawful = true) (p : Pos) {c : Char} (hc : t.isCode c = true) :
+    t.maskC (codeFor t p c) = if p.2.2 then complMask (t.maskC c) else t.maskC c := by
+  unfold codeFor
+  split
+  · exact complC_mask hl hc
+  · rfl
+
+/-- after a fold of `narrow`, the base set at every position is the old set intersected with all the letters
+    that landed on it -/
+theorem specFold_masks {t : CodeTable} (hl : t.lawful = true) {st st' : St} {l : List (Pos × Char)}
+    (h : specFold t st l = some st') (hc : ∀ pc ∈ l, t.isCode pc.2 = true) (n : String) (i : Nat) :
+    maskAt t st' n i = (hits t l n i).foldl (· &&& ·) (maskAt t st n i) := by
+  induction l generalizing st with
+  | nil => simp [specFold] at h; rw [h]; rfl
+  | cons a r ih =>
+    obtain ⟨p, c⟩ := a
+    rw [specFold_cons] at h
+    obtain ⟨s1, h1, h2⟩ := Option.bind_eq_some_iff.1 h
+    rw [ih h2 (fun pc hpc => hc pc (List.mem_cons_of_mem _ hpc))]
+    have hch := narrow_charAt h1 n i
+    unfold hits
+    rw [List.filterMap_cons]
+    by_cases hni : p.1 = n ∧ p.2.1 = i
+    · simp only [hni, and_self, if_true, List.foldl_cons]
+      congr 1
+      have hni' : n = p.1 ∧ i = p.2.1 := ⟨hni.1.symm, hni.2.symm⟩
+      rw [if_pos hni'] at hch
+      -- the narrowing succeeded, so the position exists and the intersection is a code
+      unfold narrow at h1
+      obtain ⟨e, he, h1⟩ := Option.bind_eq_some_iff.1 h1
+      obtain ⟨c', hc', _⟩ := Option.map_eq_some_iff.1 h1
+      unfold narrowC at hc'
+      obtain ⟨x, hx, hc'⟩ := Option.bind_eq_some_iff.1 hc'
+      obtain ⟨y, hy, _⟩ := Option.map_eq_some_iff.1 hc'
+      have hcx : charAt st n i = some x := by
+        unfold charAt; rw [hni'.1, hni'.2, he]; exact hx
+      rw [hcx, Option.bind_some, hy] at hch
+      unfold maskAt
+      rw [hch, hcx]
+      simp only
+      rw [((interO_eq_some_iff hl).1 hy).2.2.2, maskC_codeFor hl p (hc (p, c) List.mem_cons_self)]
+    · have hni' : ¬ (n = p.1 ∧ i = p.2.1) := fun ⟨a, b⟩ => hni ⟨a.symm, b.symm⟩
+      rw [if_neg hni'] at hch
+      simp only [hni, if_false]
+      unfold maskAt
+      rw [hch]
+
+theorem specFix_ok {t : CodeTable} {st st' : St} {pos : List Pos} {str : List Char}
+    (h : specFix t st pos str = .ok st') : pos.length = str.length ∧ specFold t st (pos.zip str) = some st' := by
+  unfold specFix at h
+  split at h
+  · cases h
+  · rename_i hlen
+    refine ⟨by simpa using hlen, ?_⟩
+    cases h2 : specFold t st (pos.zip str) with
+    | none => rw [h2] at h; cases h
+    | some s2 => rw [h2] at h; simp only [Except.ok.injEq] at h; rw [h]
+
+/-- the specification fails with `empty` exactly when some intersection along the way is empty -/
+theorem specFix_error {t : CodeTable} {st : St} {pos : List Pos} {str : List Char} {err : Fix.Err}
+    (h : specFix t st pos str = .error err) :
+    (err = .length ∧ pos.length ≠ str.length) ∨
+    (err = .empty ∧ pos.length = str.length ∧ specFold t st (pos.zip str) = none) := by
+  unfold specFix at h
+  split at h
+  · rename_i hlen
+    left; exact ⟨by cases h; rfl, by simpa using hlen⟩
+  · rename_i hlen
+    right
+    cases h2 : specFold t st (pos.zip str) with
+    | none => rw [h2] at h; exact ⟨by cases h; rfl, by simpa using hlen, rfl⟩
+    | some s2 => rw [h2] at h; cases h
+
+/-- under the invariant, a single `narrow` fails only on an empty intersection -/
+theorem narrow_none_iff {t : CodeTable} (hl : t.lawful = true) {st : St} (hw : wfB t st = true) {p : Pos} {c : Char}
+    (hc : t.isCode c = true) {x : Char} (hx : charAt st p.1 p.2.1 = some x) :
+    narrow t st p c = none ↔ t.maskC x &&& (if p.2.2 then complMask (t.maskC c) else t.maskC c) = 0 := by
+  unfold charAt at hx
+  obtain ⟨e, he, hx⟩ := Option.bind_eq_some_iff.1 hx
+  have hxc : t.isCode x = true := (wfB_constOK hw (findSeq_mem he)).1 x (List.mem_of_getElem? hx)
+  have hcc : t.isCode (codeFor t p c) = true := by
+    unfold codeFor; split
+    · exact complD_isCode hl hc
+    · exact hc
+  rw [← maskC_codeFor hl p hc, ← interO_eq_none_iff hl hxc hcc]
+  unfold narrow narrowC
+  rw [he]
+  simp only [Option.bind_some, hx]
+  cases interO t x (codeFor t p c) <;> simp
+
+/-! ### order independence -/
+
+theorem toOption_bind {ε α β} (x : Except ε α) (f : α → Except ε β) :
+    (x.bind f).toOption = x.toOption.bind (fun a => (f a).toOption) := by
+  cases x <;> rfl
+
+theorem specFix_toOption (t : CodeTable) (st : St) (pos : List Pos) (str : List Char) :
+    (specFix t st pos str).toOption = if pos.length = str.length then specFold t st (pos.zip str) else none := by
+  unfold specFix
+  by_cases h : pos.length = str.length
+  · have : (pos.length != str.length) = false := by simp [h]
+    rw [this]; simp only [Bool.false_eq_true, if_false, h, if_true]
+    cases specFold t st (pos.zip str) <;> rfl
+  · have : (pos.length != str.length) = true := by simp [h]
+    rw [this]; simp only [if_true, h, if_false]; rfl
+
+/-- two fixes commute: same final state, or both orders fail -/
+theorem specFix_comm {t : CodeTable} (hl : t.lawful = true) (st : St) (p1 p2 : List Pos) (s1 s2 : List Char) :
+    ((specFix t st p1 s1).bind (fun st' => specFix t st' p2 s2)).toOption =
+    ((specFix t st p2 s2).bind (fun st' => specFix t st' p1 s1)).toOption := by
+  rw [toOption_bind, toOption_bind, specFix_toOption, specFix_toOption]
+  simp only [specFix_toOption]
+  by_cases h1 : p1.length = s1.length <;> by_cases h2 : p2.length = s2.length <;>
+    simp only [h1, h2, if_true, if_false, Option.bind_none]
+  · exact specFold_comm hl st _ _
+  · cases specFold t st (p1.zip s1) <;> rfl
+  · cases specFold t st (p2.zip s2) <;> rfl
+
+/-- a whole list of fixes, in order -/
+def specFixAll (t : CodeTable) (st : St) (l : List (List Pos × List Char)) : Except Fix.Err St :=
+  l.foldlM (fun s x => specFix t s x.1 x.2) st
+
+theorem specFixAll_toOption (t : CodeTable) (st : St) (l : List (List Pos × List Char)) :
+    (specFixAll t st l).toOption =
+      if l.all (fun x => x.1.length == x.2.length) then specFold t st (l.flatMap fun x => x.1.zip x.2) else none := by
+  unfold specFixAll
+  induction l generalizing st with
+  | nil => simp [specFold]; rfl
+  | cons x r ih =>
+    rw [foldlM_cons_except]
+    have hx := specFix_toOption t st x.1 x.2
+    cases h : specFix t st x.1 x.2 with
+    | error e =>
+      rw [h] at hx
+      simp only [List.all_cons, List.flatMap_cons, specFold_append]
+      by_cases hl : x.1.length = x.2.length
+      · simp only [hl, if_true] at hx
+        rw [← hx]
+        simp [Except.toOption]
+      · simp [hl, Except.toOption]
+    | ok s' =>
+      rw [h] at hx
+      simp only [List.all_cons, List.flatMap_cons, specFold_append]
+      by_cases hl : x.1.length = x.2.length
+      · simp only [hl, if_true] at hx
+        have hb : (x.1.length == x.2.length) = true := by simp [hl]
+        rw [← hx, ih s', hb, Bool.true_and]
+        rfl
+      · simp [hl, Except.toOption] at hx
+
+/-- the outcome of a list of fixes does not depend on their order -/
+theorem specFixAll_perm {t : CodeTable} (hl : t.lawful = true) (st : St) {l1 l2 : List (List Pos × List Char)}
+    (h : l1.Perm l2) : (specFixAll t st l1).toOption = (specFixAll t st l2).toOption := by
+  rw [specFixAll_toOption, specFixAll_toOption, h.all_eq,
+    specFold_perm hl (h.flatMap_right _) st]
+
+/-! ### names that do not exist -/
+
+theorem fixNamed_comp_unknown_seq (t : CodeTable) (fuel : Nat) (s : St) (name : String) (str : List Char)
+    (h : s.findSeq name = none) : fixNamed t .sequence (fuel + 1) (.comp s) name str = .ok none := by
+  simp [fixNamed, h]
+
+theorem fixNamed_comp_unknown_strand (t : CodeTable) (fuel : Nat) (s : St) (name : String) (str : List Char)
+    (h : s.findStrand name = none) : fixNamed t .strand (fuel + 1) (.comp s) name str = .ok none := by
+  simp [fixNamed, h]
+
+theorem fixNamed_comp_unknown_struct (t : CodeTable) (fuel : Nat) (s : St) (name : String) (str : List Char)
+    (h : s.findStruct name = none) : fixNamed t .structure (fuel + 1) (.comp s) name str = .ok none := by
+  simp [fixNamed, h]
+
+theorem fixNamed_sys_no_dash (t : CodeTable) (k : Kind) (fuel : Nat) (st : SysSt) (name : String) (str : List Char)
+    (h : splitFirstDash name = none) : fixNamed t k (fuel + 1) (.sys st) name str = .ok none := by
+  cases st
+  simp [fixNamed, h]
+
+theorem fixNamed_sys_unknown_inst (t : CodeTable) (k : Kind) (fuel : Nat) (st : SysSt) (name cn rest : String)
+    (str : List Char) (h : splitFirstDash name = some (cn, rest)) (h2 : st.components.lookup cn = none) :
+    fixNamed t k (fuel + 1) (.sys st) name str = .ok none := by
+  cases st
+  simp only [SysSt.components] at h2
+  simp [fixNamed, h, h2]
+
+theorem fixNamed_sys_unknown_below (t : CodeTable) (k : Kind) (fuel : Nat) (st : SysSt) (name cn rest : String)
+    (str : List Char) (sub : Inst) (h : splitFirstDash name = some (cn, rest))
+    (h2 : st.components.lookup cn = some sub) (h3 : fixNamed t k fuel sub rest str = .ok none) :
+    fixNamed t k (fuel + 1) (.sys st) name str = .ok none := by
+  cases st
+  simp only [SysSt.components] at h2
+  simp [fixNamed, h, h2, h3]
+
+theorem fixSignal_unknown (t : CodeTable) (fuel : Nat) (st : SysSt) (name : String) (str : List Char)
+    (h : st.signals.lookup name = none) : fixSignal t (fuel + 1) st name str = .ok none := by
+  simp [fixSignal, h]
+
+/-! ### signals: one binding -/
+
+/-- reverse complement of a string of codes -/
+def wc (t : CodeTable) (s : List Char) : List Char := s.reverse.map (complC t)
+
+theorem wcStr_eq_wc {t : CodeTable} (hl : t.lawful = true) (s : List Char) (h : ∀ c ∈ s, t.isCode c = true) :
+    t.wcStr s = some (wc t s) := wcStr_eq hl s h
+
+theorem wc_codes {t : CodeTable} (hl : t.lawful = true) {s : List Char} (h : ∀ c ∈ s, t.isCode c = true) :
+    ∀ c ∈ wc t s, t.isCode c = true := by
+  intro c hc
+  obtain ⟨a, ha, rfl⟩ := List.mem_map.1 hc
+  exact complD_isCode hl (h a (List.mem_reverse.1 ha))
+
+theorem wc_wc {t : CodeTable} (hl : t.lawful = true) (s : List Char) (h : ∀ c ∈ s, t.isCode c = true) :
+    wc t (wc t s) = s := by
+  have := wcStr_wcStr hl s h
+  rw [wcStr_eq_wc hl s h, Option.bind_some, wcStr_eq_wc hl _ (wc_codes hl h)] at this
+  simpa using this
+
+/-- fixing the starred view of a sequence to `str` is fixing the sequence itself to the reverse complement -/
+theorem specFix_star {t : CodeTable} (hl : t.lawful = true) {st : St} (hw : wfB t st = true) {n : String} {e : SeqE}
+    (he : st.findSeq n = some e) (str : List Char) (hc : ∀ c ∈ str, t.isCode c = true) :
+    specFix t st (posOfView st n true) str = specFix t st (posOfView st n false) (wc t str) := by
+  unfold specFix
+  have hpl := posOfView_length hw he
+  rw [hpl false, hpl true]
+  have : (wc t str).length = str.length := by simp [wc]
+  rw [this]
+  split
+  · rfl
+  · rename_i hne
+    have hlen : e.len = str.length := by simpa using hne
+    have hpv : posOfView st n true = (posOfView st n false).reverse.map flipPos := by
+      unfold posOfView; rw [he]; rfl
+    rw [hpv, specFold_rev hl st _ str hc (by rw [hpl false, hlen])]
+    rfl
+
+/-- one leaf binding of a signal: the port's sequence (unstarred) is fixed to `str` when the parity flag is
+    false and to the reverse complement of `str` when it is true -/
+theorem fix_port {t : CodeTable} (hl : t.lawful = true) {cs : St} (hw : wfB t cs = true) {n : String} {e : SeqE}
+    (he : cs.findSeq n = some e) (parity : Bool) (str : List Char) (hc : ∀ c ∈ str, t.isCode c = true) :
+    fixItem t (cs.seqs.length + 1) cs n parity str =
+      specFix t cs (posOfView cs n false) (if parity then wc t str else str) := by
+  rw [fixItem_top hl hw he _ (Nat.lt_succ_self _) parity str hc]
+  cases parity
+  · rfl
+  · exact specFix_star hl hw he str hc
 
 end Pepper.FixSpec
